@@ -1003,7 +1003,7 @@ func replayVia(o *Obligation, repo, scratch string) (string, bool) {
 }
 
 var ghostIntrinsicNames = []string{"verifBuf", "verifRdPos", "verifRdData", "verifRdEOF", "verifWritten", "verifTokPos", "verifTokDepth", "verifFresh", "verifFreshVal",
-	"verifRangeCount", "verifRangeIndex", "verifHeight", "verifIsNaN", "verifIsInf", "verifVisited", "verifLent"}
+	"verifRangeCount", "verifRangeIndex", "verifHeight", "verifIsNaN", "verifIsInf", "verifVisited", "verifLent", "verifMapsSameExcept", "verifMapSameExceptKey", "verifMapSameExceptKeys", "verifOldHas", "verifOldGet", "verifOldLen"}
 
 // usesGhostIntrinsic: the clause mentions a ghost function that has no executable body (cannot be evaluated in a replay).
 func usesGhostIntrinsic(expr string) bool {
